@@ -537,14 +537,19 @@ impl Session {
     }
 }
 
-/// Next lower region-supported data rate, if any.
+/// Next lower region-supported data rate, if any, for which the current channel mask still
+/// leaves a channel to transmit on (in fixed channel plans 125 kHz and 500 kHz rates use
+/// disjoint sets of channels).
 fn next_lower_datarate(region: &region::Configuration, current: DR) -> Option<DR> {
     let current = current as u8;
     if current == 0 {
         return None;
     }
+    let channel_mask = region.channel_mask_get();
     for candidate in (0..current).rev() {
-        if region.get_datarate(candidate).is_some() {
+        if region.get_datarate(candidate).is_some()
+            && region.channel_mask_validate(&channel_mask, Some(DR::from(candidate)))
+        {
             return Some(DR::from(candidate));
         }
     }
